@@ -1,4 +1,5 @@
 import ALock.Lemmas.OnceCell
+import ALock.Atomic.Calls
 
 /-!
 # C08 — OnceCell: waiters finish on init; a failed initialiser hands over
@@ -151,3 +152,14 @@ example :
     s.state = 0 ∧ s.woken = [1] ∧ (step s (.poll 1 4 .ok)).2 = .readyVal 1 := by decide
 
 end ALock.Once
+
+/-! ## Where the notifications are sent (generated site table) -/
+
+namespace ALock.Atomic.Calls
+
+/-- every operation of `src/once_cell.rs` on the state word and every `listen` (also through the
+`listener!` macro) / `notify` / `notify_additional` on `active_initializers` and `passive_waiters`,
+function by function in source order (generated table) -/
+theorem C08_calls_ok : fileShapes "src/once_cell.rs" = onceCellExpected := by decide
+
+end ALock.Atomic.Calls
